@@ -25,7 +25,9 @@ func scC03Fault(w *World, a Args, rng *rand.Rand) error {
 	if a.Str("dir", "s2c") == "s2c" {
 		dir = S2C
 	}
-	c, err := w.NewClient(ClientOpts{Name: "A", NoPing: true, BackoffMin: 3 * time.Millisecond, BackoffMax: 15 * time.Millisecond,
+	stall := a.Str("style", "fin") == "stall" // the link turns into a black hole (noticed through keepalive only)
+	stallTimeout := 120 * time.Millisecond
+	c, err := w.NewClient(ClientOpts{Name: "A", NoPing: !stall, Ping: 15 * time.Millisecond, Timeout: stallTimeout, BackoffMin: 3 * time.Millisecond, BackoffMax: 15 * time.Millisecond,
 		NoReconnect: a.Bool("noreconnect"), Errors: a.Bool("errors")})
 	if err != nil {
 		return err
@@ -35,7 +37,9 @@ func scC03Fault(w *World, a Args, rng *rand.Rand) error {
 	if window {
 		w.SetDialGate(true)
 	}
-	pc.AddRule(&Rule{Dir: dir, Frame: a.Int("frame", 1), Pos: a.Str("pos", "after"), Style: a.Str("style", "fin")})
+	if !stall {
+		pc.AddRule(&Rule{Dir: dir, Frame: a.Int("frame", 1), Pos: a.Str("pos", "after"), Style: a.Str("style", "fin")})
+	}
 	if a.Bool("double") {
 		n := 0
 		w.Proxy.SetPolicy(func(p *PConn) {
@@ -87,6 +91,22 @@ func scC03Fault(w *World, a Args, rng *rand.Rand) error {
 		}()
 	}
 	time.Sleep(2 * time.Millisecond)
+	stopTraffic := make(chan struct{})
+	if stall {
+		pc.Blackhole()
+		if a.Bool("traffic") { // the application keeps sending (notifications) more often than the timeout
+			go func() {
+				for i := 0; ; i++ {
+					select {
+					case <-stopTraffic:
+						return
+					case <-time.After(stallTimeout / 5):
+						go c.API.Notify(context.Background(), 9000+i)
+					}
+				}
+			}()
+		}
+	}
 	// responses come back in a seeded order
 	order := []int{1, 2, 3}
 	rng.Shuffle(3, func(i, j int) { order[i], order[j] = order[j], order[i] })
@@ -123,6 +143,7 @@ func scC03Fault(w *World, a Args, rng *rand.Rand) error {
 		}
 		w.SetDialGate(false)
 	}
+	close(stopTraffic)
 	done := make(chan struct{})
 	go func() { wg.Wait(); close(done) }()
 	select {
@@ -158,7 +179,13 @@ func scC05Outage(w *World, a Args, rng *rand.Rand) error {
 	applyDelays(w, a)
 	k := a.Int("faileddials", 2)
 	noRe := a.Bool("noreconnect")
-	c, err := w.NewClient(ClientOpts{Name: "A", NoPing: true, BackoffMin: time.Duration(a.Int("minus", 2000)) * time.Microsecond,
+	keepalive := a.Bool("keepalive") // millisecond-scale ping / timeout instead of none
+	timeout := 120 * time.Millisecond
+	retryKind := "retry"
+	if a.Bool("nc") {
+		retryKind = "retrync" // a retry-tagged method whose client signature has no context
+	}
+	c, err := w.NewClient(ClientOpts{Name: "A", NoPing: !keepalive, Ping: 15 * time.Millisecond, Timeout: timeout, BackoffMin: time.Duration(a.Int("minus", 2000)) * time.Microsecond,
 		BackoffMax: time.Duration(a.Int("maxus", 10000)) * time.Microsecond, NoReconnect: noRe, Errors: a.Bool("errors")})
 	if err != nil {
 		return err
@@ -175,12 +202,13 @@ func scC05Outage(w *World, a Args, rng *rand.Rand) error {
 		}()
 	}
 	call("unary", 1, true) // in flight when the link drops
-	call("retry", 3, true)
+	call(retryKind, 3, true)
 	w.WaitRunning(1, 300*time.Millisecond)
 	w.WaitRunning(3, 300*time.Millisecond)
+	w.Rec.Emit("PhaseEnd", "phase", "healthy")
 	w.Proxy.SetDown(true)
+	w.Rec.Emit("WireFault", "conn", 1, "fault", "kill/"+a.Str("style", "fin"), "dir", "both", "frame", 0) // cause before effect in the log
 	w.Proxy.Last().Kill(a.Str("style", "fin"))
-	w.Rec.Emit("WireFault", "conn", 1, "fault", "kill/"+a.Str("style", "fin"), "dir", "both", "frame", 0)
 	w.Release(1)
 	w.Release(3)
 	// wait for k failed dials, issuing calls during the outage
@@ -196,7 +224,7 @@ func scC05Outage(w *World, a Args, rng *rand.Rand) error {
 		if failed >= 1 && !issued {
 			issued = true
 			call("unary", 5, false)
-			call("retry", 7, false)
+			call(retryKind, 7, false)
 		}
 		if failed >= k || noRe {
 			break
@@ -220,12 +248,27 @@ func scC05Outage(w *World, a Args, rng *rand.Rand) error {
 	case <-time.After(patience(4 * time.Second)):
 	}
 	if !noRe {
+		healed := false
 		dl := time.Now().Add(patience(3 * time.Second))
 		for tok := 6; tok < 6+40*10 && time.Now().Before(dl); tok += 10 {
 			if out := c.CallT("unary", tok, patience(2*time.Second)); out == "ok" || out == "pending" {
+				healed = out == "ok"
 				break
 			}
 			time.Sleep(3 * time.Millisecond)
+		}
+		if healed && a.Bool("healedphase") {
+			// the healed link is as good as the first one: a call lasting several timeouts, then an idle gap, then a call
+			w.Rec.Emit("PhaseStart", "phase", "healthy")
+			w.Plan(8, &Plan{Gated: true})
+			d8 := make(chan struct{})
+			go func() { c.Call(context.Background(), "unary", 8); close(d8) }()
+			time.Sleep(3 * timeout)
+			w.Release(8)
+			waitCh(d8, patience(2*time.Second))
+			time.Sleep(2 * timeout)
+			c.CallT("unary", 9, 2*time.Second)
+			w.Rec.Emit("PhaseEnd", "phase", "healthy")
 		}
 		w.Quiesce(c, 1000, 3*time.Second)
 	} else {
@@ -266,6 +309,7 @@ func scC03WriteFail(w *World, a Args, rng *rand.Rand) error {
 	time.Sleep(time.Duration(a.Int("holdms", 20)) * time.Millisecond)
 	w.Release(1)
 	// now the connection dies for good and the read side notices
+	w.Rec.Emit("WireFault", "conn", 1, "fault", "kill/"+a.Str("style", "fin"), "dir", "both", "frame", 0)
 	w.Proxy.Last().Kill(a.Str("style", "fin"))
 	done := make(chan struct{})
 	go func() { wg.Wait(); close(done) }()
